@@ -245,6 +245,84 @@ func runC17(r *Run) {
 		}
 	}
 	r.Check(nCmp >= 2, "R3", fnID(cb)+"#compares-with-target", P.Pos(fnPos(cb)), "gas figure compared with target = gas limit / elasticity", "the comparisons of the previous gas figure with the target (gas limit / elasticity multiplier) are gone")
+	// which branch belongs to which ordering: the increasing result is reachable only where used > target is
+	// possible, the decreasing one only where used < target is possible; and each delta subtracts the smaller
+	// figure from the larger (uint64 subtraction wraps otherwise)
+	isUsed := func(v ssa.Value) bool {
+		s := backSlice(v)
+		return s.HasCall(func(g CallInfo) bool { return g.Name == "GetBlockGasWanted" }) && !s.HasField("Params", "ElasticityMultiplier")
+	}
+	isTarget := func(v ssa.Value) bool {
+		s := backSlice(v)
+		return s.HasField("Params", "ElasticityMultiplier") && !s.HasCall(func(g CallInfo) bool { return g.Name == "GetBlockGasWanted" })
+	}
+	var greaterPossible, lessPossible []Edge
+	for _, b := range cb.Blocks {
+		ifi, ok := lastIf(b)
+		if !ok {
+			continue
+		}
+		bo, ok := ifi.Cond.(*ssa.BinOp)
+		if !ok {
+			continue
+		}
+		op := bo.Op
+		switch {
+		case isUsed(bo.X) && isTarget(bo.Y):
+		case isUsed(bo.Y) && isTarget(bo.X):
+			op = flipCmp(op)
+		default:
+			continue
+		}
+		// normalised: used OP target; Succ 0 = condition true
+		switch op {
+		case token.GTR:
+			greaterPossible = append(greaterPossible, Edge{b, 0})
+			lessPossible = append(lessPossible, Edge{b, 1})
+		case token.GEQ:
+			greaterPossible = append(greaterPossible, Edge{b, 0})
+			lessPossible = append(lessPossible, Edge{b, 1})
+		case token.LSS:
+			lessPossible = append(lessPossible, Edge{b, 0})
+			greaterPossible = append(greaterPossible, Edge{b, 1})
+		case token.LEQ:
+			lessPossible = append(lessPossible, Edge{b, 0})
+			greaterPossible = append(greaterPossible, Edge{b, 1})
+		}
+	}
+	subOrder := func(s *Slice) (usedMinusTarget, targetMinusUsed bool) {
+		s.Any(func(v ssa.Value) bool {
+			if bo, ok := v.(*ssa.BinOp); ok && bo.Op == token.SUB {
+				if isUsed(bo.X) && isTarget(bo.Y) {
+					usedMinusTarget = true
+				}
+				if isTarget(bo.X) && isUsed(bo.Y) {
+					targetMinusUsed = true
+				}
+			}
+			return false
+		})
+		return
+	}
+	for i, ri := range rets {
+		c, isC := ri.v.(*ssa.Call)
+		if !isC {
+			continue
+		}
+		isThis := func(in ssa.Instruction) bool { return in == ssa.Instruction(ri.ret) }
+		switch callInfo(c).Name {
+		case "Add":
+			w := PathQuery{Fn: cb, Target: isThis, DelEdge: edgeSet(greaterPossible)}.Search()
+			um, tm := subOrder(ri.s)
+			r.Check(w == nil && len(greaterPossible) > 0 && um && !tm, "R3", fmt.Sprintf("%s#increase-only-above-target-%d", fnID(cb), i+1), P.Pos(instrPos(ri.ret)), "the increasing result is returned only where used > target is possible; delta = used − target",
+				fmt.Sprintf("the increasing result (parent + delta) is reachable where the gas figure is not above the target, or its delta is not used − target (used−target: %v, target−used: %v): the base fee would rise in under-full blocks and the unsigned subtraction wraps", um, tm), P.witness(w)...)
+		case "BigMax":
+			w := PathQuery{Fn: cb, Target: isThis, DelEdge: edgeSet(lessPossible)}.Search()
+			um, tm := subOrder(ri.s)
+			r.Check(w == nil && len(lessPossible) > 0 && tm && !um, "R3", fmt.Sprintf("%s#decrease-only-below-target-%d", fnID(cb), i+1), P.Pos(instrPos(ri.ret)), "the decreasing result is returned only where used < target is possible; delta = target − used",
+				fmt.Sprintf("the decreasing result is reachable where the gas figure is not below the target, or its delta is not target − used (target−used: %v, used−target: %v)", tm, um), P.witness(w)...)
+		}
+	}
 }
 
 // resolveLocal: a load of a local variable that is assigned exactly once (e.g. because a deferred
